@@ -1146,3 +1146,346 @@ Proof.
     rewrite (guard_false _ _ Hc). destruct shp as [|z shp]; [congruence|]. rewrite Zl_eqb_refl. cbn [negb].
     unfold mwrite, ret. reflexivity.
 Qed.
+
+(* ---- post-condition vocabulary *)
+(* allocation and writes to fresh buffers only *)
+Definition same_old (h h' : list buf) : Prop :=
+  length h <= length h' /\ forall r, r < length h -> getbuf h' r = getbuf h r.
+(* entries tix of buffer r now hold d; every other entry of r and every other old buffer is unchanged *)
+Definition wrote (h h' : list buf) (r : nat) (tix : list nat) (d : list C) : Prop :=
+  length h <= length h' /\ rd h' r tix = d /\
+  (forall k, ~ In k tix -> nth k (bdata (getbuf h' r)) c0 = nth k (bdata (getbuf h r)) c0) /\
+  length (bdata (getbuf h' r)) = length (bdata (getbuf h r)) /\ bcplx (getbuf h' r) = bcplx (getbuf h r) /\
+  (forall r', r' < length h -> r' <> r -> getbuf h' r' = getbuf h r').
+
+Definition win_ok (h : list buf) (r : nat) (ix : list nat) : Prop :=
+  r < length h /\ NoDup ix /\ Forall (fun k => k < length (bdata (getbuf h r))) ix.
+
+Lemma same_old_refl h : same_old h h. Proof. split; auto. Qed.
+Lemma same_old_trans a b c : same_old a b -> same_old b c -> same_old a c.
+Proof. intros [L1 F1] [L2 F2]. split; [lia|]. intros r Hr. rewrite F2 by lia. apply F1; exact Hr. Qed.
+Lemma same_old_alloc h b : same_old h (h ++ [b]).
+Proof. split; [rewrite app_length; lia|]. intros r Hr. apply getbuf_app_old; exact Hr. Qed.
+Lemma same_old_write_fresh h h1 rc ix d : same_old h h1 -> length h <= rc -> same_old h (hwrite h1 rc ix d).
+Proof.
+  intros [L F] Hrc. split; [rewrite hwrite_length; exact L|].
+  intros r Hr. rewrite getbuf_hwrite_other by lia. apply F; exact Hr.
+Qed.
+Lemma same_old_rd h h' r ix : same_old h h' -> r < length h -> rd h' r ix = rd h r ix.
+Proof. intros [_ F] Hr. unfold rd. rewrite F by exact Hr. reflexivity. Qed.
+Lemma same_old_win_ok h h' r ix : same_old h h' -> win_ok h r ix -> win_ok h' r ix.
+Proof. intros [L F] (A & B & D). split; [lia|split; [exact B|]]. rewrite F by exact A. exact D. Qed.
+
+Lemma wrote_hwrite h r tix d : win_ok h r tix -> length d = length tix -> wrote h (hwrite h r tix d) r tix d.
+Proof.
+  intros (A & B & D) Hl. split; [rewrite hwrite_length; lia|]. split; [apply rd_hwrite_same; assumption|].
+  split; [intros k Hk; apply nth_hwrite_frame; exact Hk|].
+  destruct (hwrite_meta h r tix d r) as [M1 M2]. split; [exact M1|split; [exact M2|]].
+  intros r' _ Hne. apply getbuf_hwrite_other; exact Hne.
+Qed.
+
+Lemma wrote_after_same_old h h1 h2 r tix d : same_old h h1 -> r < length h -> wrote h1 h2 r tix d -> wrote h h2 r tix d.
+Proof.
+  intros [L F] Hr (W1 & W2 & W3 & W4 & W5 & W6). split; [lia|split; [exact W2|]].
+  rewrite <- (F r Hr). split; [exact W3|split; [exact W4|split; [exact W5|]]].
+  intros r' Hr' Hne. rewrite W6 by (try lia; exact Hne). apply F; exact Hr'.
+Qed.
+
+Lemma wrote_twice h h1 h2 r tix d : wrote h h1 r tix d -> wrote h1 h2 r tix d -> wrote h h2 r tix d.
+Proof.
+  intros (A1 & A2 & A3 & A4 & A5 & A6) (B1 & B2 & B3 & B4 & B5 & B6).
+  split; [lia|split; [exact B2|]]. split; [intros k Hk; rewrite B3, A3; auto|].
+  split; [congruence|split; [congruence|]]. intros r' Hr' Hne. rewrite B6 by (try lia; exact Hne). apply A6; assumption.
+Qed.
+
+Lemma wrote_win_ok h h' r tix d ix : wrote h h' r tix d -> win_ok h r ix -> win_ok h' r ix.
+Proof. intros (A1 & A2 & A3 & A4 & A5 & A6) (B & D & E). split; [lia|split; [exact D|]]. rewrite A4. exact E. Qed.
+
+Lemma whole_NoDup n : NoDup (whole n). Proof. apply seq_NoDup. Qed.
+Lemma whole_length n : length (whole n) = n. Proof. apply seq_length. Qed.
+Lemma whole_range n : Forall (fun k => k < n) (whole n).
+Proof. apply Forall_forall. intros k Hk. apply in_seq in Hk. lia. Qed.
+Lemma sub_ix_length ix js : length (sub_ix ix js) = length js. Proof. apply map_length. Qed.
+
+(* ================================================================== assignment through a slice *)
+Theorem set_st_slice_spec i s p x w r ix shp jx shp1 si :
+  r_st (root w i) = VWin r ix shp -> resolve ix shp p = Some (jx, shp1) ->
+  lookup_slc s shp1 = Some si -> (si_kind si = KView \/ si_kind si = KCopy) ->
+  fits (heap w) x (si_shape si) (length (si_idx si)) (bcplx (getbuf (heap w) r)) ->
+  set_st i (s :: p) x w =
+    (set_heap w (hwrite (heap w) r (sub_ix jx (si_idx si)) (vdata (heap w) x (length (si_idx si)))), Ok tt).
+Proof.
+  intros Hst Hr L K Hf. cbn [set_st]. unfold get_st.
+  rewrite (bind_ok _ _ _ _ _ (get_fld_view r_st i p w r ix shp jx shp1 Hst Hr)).
+  cbn [setitem]. rewrite L. rewrite <- (sub_ix_length jx (si_idx si)) in *.
+  destruct K as [K|K]; rewrite K; apply assign_fits; exact Hf.
+Qed.
+
+Lemma vdata_length h x n : (match x with VWin _ ix _ => length ix = n | VNone => False | _ => True end) ->
+  length (vdata h x n) = n.
+Proof. destruct x as [|c cx np|r ix shp]; cbn; intros H; [destruct H|apply repeat_length|rewrite rd_length; exact H]. Qed.
+
+Lemma fits_length h x shp n tcx : fits h x shp n tcx -> length (vdata h x n) = n.
+Proof. intros [_ H]. apply vdata_length. destruct x; auto. destruct H as (_ & _ & H); exact H. Qed.
+
+(* ================================================================== add_sensitivity through a slice *)
+Definition add_tail (i : nat) (s : slc) (p : list slc) (ds : val) : M unit :=
+  bind (get_se i (s :: p)) (fun _ => bind (get_se i (s :: p)) (fun cur =>
+  bind (iadd cur ds) (fun t => set_se i (s :: p) t))).
+
+Lemma resolve_step ix shp s p jx shp1 si :
+  resolve ix shp p = Some (jx, shp1) -> lookup_slc s shp1 = Some si -> si_kind si = KView -> si_shape si <> [] ->
+  resolve ix shp (s :: p) = Some (sub_ix jx (si_idx si), si_shape si).
+Proof. intros R L K N. cbn. rewrite R, L, K. destruct (si_shape si); [congruence|reflexivity]. Qed.
+
+Lemma vdata_same_old h h' x n : same_old h h' -> (forall r, vref x = Some r -> r < length h) ->
+  vdata h' x n = vdata h x n /\ vcplx h' x = vcplx h x.
+Proof.
+  intros [L F] Hv. destruct x as [|c cx np|r ix shp]; cbn; auto.
+  specialize (Hv r eq_refl). unfold rd. rewrite F by exact Hv. auto.
+Qed.
+
+Lemma fits_same_old h h' x shp n tcx : same_old h h' -> (forall r, vref x = Some r -> r < length h) ->
+  fits h x shp n tcx -> fits h' x shp n tcx.
+Proof.
+  intros Hs Hv [A B]. destruct (vdata_same_old h h' x n Hs Hv) as [_ E]. split; [rewrite E; exact A|exact B].
+Qed.
+
+(* the common part of set_se through a slice when the base sensitivity exists *)
+Lemma set_se_slice_exists i s p x w rs ixs shp jx shp1 si :
+  r_se (root w i) = VWin rs ixs shp -> resolve ixs shp p = Some (jx, shp1) ->
+  lookup_slc s shp1 = Some si -> (si_kind si = KView \/ si_kind si = KCopy) ->
+  fits (heap w) x (si_shape si) (length (si_idx si)) (bcplx (getbuf (heap w) rs)) ->
+  set_se i (s :: p) x w =
+    (set_heap w (hwrite (heap w) rs (sub_ix jx (si_idx si)) (vdata (heap w) x (length (si_idx si)))), Ok tt).
+Proof.
+  intros Hse Hr L K Hf. cbn [set_se]. unfold get_se.
+  pose proof (get_fld_view r_se i p w rs ixs shp jx shp1 Hse Hr) as G.
+  rewrite (bind_ok _ _ _ _ _ G). cbn [is_none]. unfold ret at 1. unfold bind at 1.
+  rewrite (bind_ok _ _ _ _ _ G).
+  assert (Hx : (if is_none x then VScal c0 false false else x) = x).
+  { destruct x; cbn; auto. destruct Hf as [_ []]. }
+  rewrite Hx. cbn [setitem]. rewrite L. rewrite <- (sub_ix_length jx (si_idx si)) in *.
+  destruct K as [K|K]; rewrite K; apply assign_fits; exact Hf.
+Qed.
+
+Lemma add_tail_spec i s p ds w rs ixs shp jx shp1 si :
+  r_se (root w i) = VWin rs ixs shp -> resolve ixs shp p = Some (jx, shp1) ->
+  lookup_slc s shp1 = Some si -> (si_kind si = KView \/ si_kind si = KCopy) -> si_shape si <> [] ->
+  win_ok (heap w) rs (sub_ix jx (si_idx si)) ->
+  fits (heap w) ds (si_shape si) (length (si_idx si)) (bcplx (getbuf (heap w) rs)) ->
+  (forall r', vref ds = Some r' -> r' < length (heap w)) ->
+  exists w', add_tail i s p ds w = (w', Ok tt) /\ roots w' = roots w /\ vars w' = vars w /\
+    wrote (heap w) (heap w') rs (sub_ix jx (si_idx si))
+          (map2 cadd (rd (heap w) rs (sub_ix jx (si_idx si))) (vdata (heap w) ds (length (si_idx si)))).
+Proof.
+  intros Hse Hr L K N Hok Hf Hv.
+  set (tix := sub_ix jx (si_idx si)) in *. set (n := length (si_idx si)) in *.
+  assert (Hn : length tix = n) by apply sub_ix_length.
+  set (sum := map2 cadd (rd (heap w) rs tix) (vdata (heap w) ds n)).
+  assert (Hsum : length sum = length tix).
+  { unfold sum. rewrite map2_length; rewrite rd_length; [reflexivity|]. rewrite (fits_length _ _ _ _ _ Hf). auto. }
+  unfold add_tail. destruct K as [K|K].
+  - (* last slice is a view *)
+    pose proof (get_fld_view r_se i (s :: p) w rs ixs shp tix (si_shape si) Hse (resolve_step _ _ _ _ _ _ _ Hr L K N)) as G.
+    fold (get_se i (s :: p)) in G.
+    rewrite (bind_ok _ _ _ _ _ G). rewrite (bind_ok _ _ _ _ _ G).
+    assert (Hf1 : fits (heap w) ds (si_shape si) (length tix) (bcplx (getbuf (heap w) rs))) by (rewrite Hn; exact Hf).
+    rewrite (bind_ok _ _ _ _ _ (iadd_fits rs tix (si_shape si) ds w Hf1)). rewrite Hn. fold sum.
+    set (w5 := set_heap w (hwrite (heap w) rs tix sum)).
+    assert (W1 : wrote (heap w) (heap w5) rs tix sum) by (apply wrote_hwrite; assumption).
+    assert (Hf2 : fits (heap w5) (VWin rs tix (si_shape si)) (si_shape si) (length (si_idx si)) (bcplx (getbuf (heap w5) rs))).
+    { split; [cbn; auto|]. repeat split; auto. }
+    rewrite (set_se_slice_exists i s p _ w5 rs ixs shp jx shp1 si Hse Hr L (or_introl K) Hf2).
+    eexists. split; [reflexivity|]. split; [reflexivity|]. split; [reflexivity|].
+    cbn [heap set_heap vdata]. fold tix.
+    destruct W1 as (A1 & A2 & A3). rewrite A2.
+    eapply wrote_twice; [split; [exact A1|split; [exact A2|exact A3]]|].
+    apply wrote_hwrite; [|exact Hsum]. eapply wrote_win_ok; [split; [exact A1|split; [exact A2|exact A3]]|exact Hok].
+  - (* last slice copies (integer-array index) *)
+    pose proof (get_fld_view r_se i p w rs ixs shp jx shp1 Hse Hr) as G0.
+    set (hA := heap w ++ [copy_buf (heap w) rs tix]). set (wA := set_heap w hA).
+    assert (GA : get_se i (s :: p) w = (wA, Ok (VWin (length (heap w)) (whole n) (si_shape si)))).
+    { unfold get_se. cbn [get_fld]. rewrite (bind_ok _ _ _ _ _ G0). apply getitem_copy; assumption. }
+    set (hB := hA ++ [copy_buf hA rs tix]). set (wB := set_heap wA hB).
+    assert (GB : get_se i (s :: p) wA = (wB, Ok (VWin (length hA) (whole n) (si_shape si)))).
+    { unfold get_se. cbn [get_fld].
+      rewrite (bind_ok _ _ _ _ _ (get_fld_view r_se i p wA rs ixs shp jx shp1 Hse Hr)). apply getitem_copy; assumption. }
+    rewrite (bind_ok _ _ _ _ _ GA). rewrite (bind_ok _ _ _ _ _ GB).
+    set (rc := length hA).
+    assert (SA : same_old (heap w) hA) by apply same_old_alloc.
+    assert (SB : same_old (heap w) hB) by (eapply same_old_trans; [exact SA|apply same_old_alloc]).
+    assert (Hrs : rs < length (heap w)) by apply Hok.
+    assert (HrdA : rd hA rs tix = rd (heap w) rs tix) by (apply same_old_rd; assumption).
+    assert (Hgc : getbuf hB rc = copy_buf hA rs tix) by apply getbuf_app_new.
+    assert (Hcc : bcplx (getbuf hB rc) = bcplx (getbuf (heap w) rs)).
+    { rewrite Hgc. cbn. destruct SA as [_ F]. rewrite F by exact Hrs. reflexivity. }
+    assert (Hf1 : fits (heap wB) ds (si_shape si) (length (whole n)) (bcplx (getbuf (heap wB) rc))).
+    { cbn [heap wB set_heap]. rewrite whole_length, Hcc. eapply fits_same_old; eauto. }
+    rewrite (bind_ok _ _ _ _ _ (iadd_fits rc (whole n) (si_shape si) ds wB Hf1)).
+    cbn [heap wB set_heap]. rewrite whole_length.
+    assert (Hrdc : rd hB rc (whole n) = rd (heap w) rs tix).
+    { unfold hB, rc. rewrite <- HrdA. replace n with (length (rd hA rs tix)) by (rewrite rd_length; exact Hn).
+      apply rd_whole_new. }
+    rewrite Hrdc. destruct (vdata_same_old (heap w) hB ds n SB Hv) as [Evd _]. rewrite Evd. fold sum.
+    set (hC := hwrite hB rc (whole n) sum). set (wC := set_heap wB hC).
+    assert (Hrc : rc < length hB) by (unfold hB, rc; rewrite app_length; cbn; lia).
+    assert (Hrcl : length (heap w) <= rc) by (unfold rc, hA; rewrite app_length; lia).
+    assert (SC : same_old (heap w) hC) by (apply same_old_write_fresh; assumption).
+    assert (Hlenc : length (bdata (getbuf hB rc)) = n).
+    { rewrite Hgc. cbn. rewrite rd_length. exact Hn. }
+    assert (HrdC : rd hC rc (whole n) = sum).
+    { apply rd_hwrite_same; [exact Hrc|apply whole_NoDup|rewrite Hlenc; apply whole_range|rewrite whole_length; lia]. }
+    assert (Hf2 : fits (heap wC) (VWin rc (whole n) (si_shape si)) (si_shape si) (length (si_idx si)) (bcplx (getbuf (heap wC) rs))).
+    { cbn [heap wC set_heap]. split.
+      - cbn [vcplx]. destruct (hwrite_meta hB rc (whole n) sum rc) as [_ M2]. fold hC in M2. rewrite M2, Hcc.
+        destruct SC as [_ F]. rewrite F by exact Hrs. auto.
+      - repeat split; auto. apply whole_length. }
+    assert (HseC : r_se (root wC i) = VWin rs ixs shp) by exact Hse.
+    rewrite (set_se_slice_exists i s p _ wC rs ixs shp jx shp1 si HseC Hr L (or_intror K) Hf2).
+    eexists. split; [reflexivity|]. split; [reflexivity|]. split; [reflexivity|].
+    cbn [heap wC set_heap vdata]. fold tix. fold n. rewrite HrdC.
+    eapply wrote_after_same_old; [exact SC|exact Hrs|].
+    apply wrote_hwrite; [|exact Hsum]. eapply same_old_win_ok; eauto.
+Qed.
+
+Lemma fits_not_none h x shp n tcx : fits h x shp n tcx -> is_none x = false.
+Proof. intros [_ H]. destruct x; auto. destruct H. Qed.
+
+Theorem add_se_slice_exists i s p ds w rs ixs shp jx shp1 si :
+  r_se (root w i) = VWin rs ixs shp -> resolve ixs shp p = Some (jx, shp1) ->
+  lookup_slc s shp1 = Some si -> (si_kind si = KView \/ si_kind si = KCopy) -> si_shape si <> [] ->
+  win_ok (heap w) rs (sub_ix jx (si_idx si)) ->
+  fits (heap w) ds (si_shape si) (length (si_idx si)) (bcplx (getbuf (heap w) rs)) ->
+  (forall r', vref ds = Some r' -> r' < length (heap w)) ->
+  exists w', add_se i (s :: p) ds w = (w', Ok tt) /\ roots w' = roots w /\ vars w' = vars w /\
+    wrote (heap w) (heap w') rs (sub_ix jx (si_idx si))
+          (map2 cadd (rd (heap w) rs (sub_ix jx (si_idx si))) (vdata (heap w) ds (length (si_idx si)))).
+Proof.
+  intros Hse Hr L K N Hok Hf Hv.
+  destruct (add_tail_spec i s p ds w rs ixs shp jx shp1 si Hse Hr L K N Hok Hf Hv) as (w' & E & R).
+  exists w'. split; [|exact R].
+  unfold add_se. rewrite (fits_not_none _ _ _ _ _ Hf).
+  pose proof (get_fld_view r_se i p w rs ixs shp jx shp1 Hse Hr) as G0. fold (get_se i p) in G0.
+  rewrite (bind_ok _ _ _ _ _ G0). cbn [is_none]. unfold ret at 1. unfold bind at 1. exact E.
+Qed.
+
+(* ---- no base sensitivity yet: a zero array of the base state's shape is created first *)
+Lemma resolve_shape_ne ix shp p jx shp1 : shp <> [] -> resolve ix shp p = Some (jx, shp1) -> shp1 <> [].
+Proof.
+  intros Hs. destruct p as [|s p]; intros H.
+  - cbn in H; inversion H; subst; exact Hs.
+  - apply resolve_cons in H as (? & ? & ? & _ & _ & _ & _ & N & _). exact N.
+Qed.
+
+Lemma resolve_length ix shp p jx shp1 ix' jx' shp1' :
+  resolve ix shp p = Some (jx, shp1) -> resolve ix' shp p = Some (jx', shp1') -> p <> [] -> length jx = length jx'.
+Proof.
+  destruct p as [|s p]; [congruence|]. intros H1 H2 _.
+  pose proof (resolve_shape _ _ _ _ _ _ _ _ H1 H2) as Es.
+  apply resolve_cons in H1 as (j1 & t1 & si1 & R1 & L1 & K1 & E1 & N1 & X1).
+  apply resolve_cons in H2 as (j2 & t2 & si2 & R2 & L2 & K2 & E2 & N2 & X2).
+  pose proof (resolve_shape _ _ _ _ _ _ _ _ R1 R2) as Et. subst t2. rewrite L1 in L2; inversion L2; subst.
+  rewrite !sub_ix_length. reflexivity.
+Qed.
+
+Lemma upd_c0_repeat n k : upd (repeat c0 n) k c0 = repeat c0 n.
+Proof. revert k; induction n as [|n IH]; intros [|k]; cbn; auto. rewrite IH. reflexivity. Qed.
+
+Lemma wr_list_zeros n ix m : wr_list (repeat c0 n) ix (repeat c0 m) = repeat c0 n.
+Proof.
+  revert m; induction ix as [|k ix IH]; intros [|m]; cbn; auto. rewrite upd_c0_repeat. apply IH.
+Qed.
+
+Lemma rd_zeros h r n ix : bdata (getbuf h r) = repeat c0 n -> rd h r ix = repeat c0 (length ix).
+Proof.
+  intros H. unfold rd. rewrite H. induction ix as [|k ix IH]; cbn; [reflexivity|]. rewrite IH. f_equal.
+  destruct (Nat.lt_ge_cases k n) as [Hk|Hk]; [apply nth_repeat|apply nth_overflow; rewrite repeat_length; exact Hk].
+Qed.
+
+Definition zero_buf (n : nat) (cx : bool) : buf := {| bdata := repeat c0 n; bcplx := cx |}.
+
+(* the relation between the world before and after the zero sensitivity of root i has been created *)
+Record zeroed (i : nat) (N : nat) (shp : list Z) (cx : bool) (w w2 : world) (rs : nat) : Prop := {
+  z_vars : vars w2 = vars w;
+  z_len : length (roots w2) = length (roots w);
+  z_other : forall j, j <> i -> root w2 j = root w j;
+  z_st : r_st (root w2 i) = r_st (root w i);
+  z_keep : r_keep (root w2 i) = r_keep (root w i);
+  z_se : r_se (root w2 i) = VWin rs (whole N) shp;
+  z_rs : rs < length (heap w2);
+  z_buf : getbuf (heap w2) rs = zero_buf N cx;
+  z_old : same_old (heap w) (heap w2)
+}.
+
+Lemma zero_init i p : forall w r0 ix0 shp jx0 kx shp1 rz cx,
+  i < length (roots w) ->
+  r_se (root w i) = VNone -> r_st (root w i) = VWin r0 ix0 shp -> shp <> [] ->
+  resolve ix0 shp p = Some (jx0, shp1) -> resolve (whole (length ix0)) shp p = Some (kx, shp1) ->
+  rz < length (heap w) -> getbuf (heap w) rz = zero_buf (length jx0) cx -> bcplx (getbuf (heap w) r0) = cx ->
+  r0 < length (heap w) ->
+  exists w2 rs, set_se i p (VWin rz (whole (length jx0)) shp1) w = (w2, Ok tt) /\
+    zeroed i (length ix0) shp cx w w2 rs /\ (rs = rz \/ length (heap w) <= rs).
+Proof.
+  induction p as [|s p IH]; intros w r0 ix0 shp jx0 kx shp1 rz cx Hi Hse Hst Hne R1 R2 Hrz Hbz Hcx Hr0.
+  - cbn in R1, R2. inversion R1; subst jx0 shp1. clear R1 R2.
+    cbn [set_se]. unfold bind, get_root, put_root. fold (root w i).
+    eexists. exists rz. split; [reflexivity|]. split; [|left; reflexivity].
+    constructor; cbn [vars roots heap set_roots]; auto.
+    + apply upd_length.
+    + intros j Hj. apply root_upd_neq. congruence.
+    + rewrite root_upd_eq by exact Hi. reflexivity.
+    + rewrite root_upd_eq by exact Hi. reflexivity.
+    + rewrite root_upd_eq by exact Hi. reflexivity.
+    + apply same_old_refl.
+  - pose proof (resolve_shape_ne _ _ _ _ _ Hne R1) as Hne1.
+    pose proof (resolve_length _ _ _ _ _ _ _ _ R1 R2 ltac:(discriminate)) as Hlen.
+    apply resolve_cons in R1 as (jx' & shp' & si & R1' & L & K & E & N & X).
+    apply resolve_cons in R2 as (kx' & shp'2 & si2 & R2' & L2 & K2 & E2 & N2 & X2).
+    pose proof (resolve_shape _ _ _ _ _ _ _ _ R1' R2') as Et. subst shp'2. rewrite L in L2; inversion L2; subst si2. clear L2 K2 E2 N2.
+    pose proof (resolve_shape_ne _ _ _ _ _ Hne R1') as Hne'.
+    cbn [set_se].
+    pose proof (get_fld_none r_se i p w Hse) as G1. fold (get_se i p) in G1.
+    rewrite (bind_ok _ _ _ _ _ G1). cbn [is_none].
+    pose proof (get_fld_view r_st i p w r0 ix0 shp jx' shp' Hst R1') as G2. fold (get_st i p) in G2.
+    rewrite (bind_ok _ _ _ _ _ G2).
+    (* mul0 allocates the zero array for the inner base *)
+    set (w1 := set_heap w (heap w ++ [zero_buf (length jx') cx])).
+    assert (Gm : mul0 (VWin r0 jx' shp') w = (w1, Ok (VWin (length (heap w)) (whole (length jx')) shp'))).
+    { cbn [mul0]. unfold bind, mcplx. rewrite Hcx. destruct shp' as [|z shp']; [congruence|].
+      unfold new_array, bind, halloc, ret. rewrite repeat_length. reflexivity. }
+    rewrite (bind_ok _ _ _ _ _ Gm).
+    assert (S1 : same_old (heap w) (heap w1)) by apply same_old_alloc.
+    destruct (IH w1 r0 ix0 shp jx' kx' shp' (length (heap w)) cx) as (w2 & rs & Es & Z & Hrs); auto.
+    { unfold w1; cbn. rewrite app_length; cbn; lia. }
+    { unfold w1; cbn. apply getbuf_app_new. }
+    { destruct S1 as [_ F]. rewrite F by exact Hr0. exact Hcx. }
+    { unfold w1; cbn. rewrite app_length; lia. }
+    rewrite (bind_ok _ _ _ _ _ Es). unfold ret at 1. unfold bind at 1.
+    destruct Z as [Zv Zl Zo Zs Zk Zse Zrs Zb Zold].
+    pose proof (get_fld_view r_se i p w2 rs (whole (length ix0)) shp kx' shp' Zse R2') as G3. fold (get_se i p) in G3.
+    rewrite (bind_ok _ _ _ _ _ G3). cbn [is_none setitem]. rewrite L, K.
+    assert (S2 : same_old (heap w) (heap w2)) by (eapply same_old_trans; eauto).
+    assert (Hrs' : length (heap w) <= rs).
+    { destruct Hrs as [->|H]; [lia|]. unfold w1 in H; cbn in H. rewrite app_length in H. lia. }
+    assert (Hbz2 : getbuf (heap w2) rz = zero_buf (length jx0) cx).
+    { destruct S2 as [_ F]. rewrite F by exact Hrz. exact Hbz. }
+    assert (Hf : fits (heap w2) (VWin rz (whole (length jx0)) shp1) (si_shape si)
+                      (length (sub_ix kx' (si_idx si))) (bcplx (getbuf (heap w2) rs))).
+    { split; [cbn; rewrite Hbz2, Zb; auto|]. split; [exact E|]. split; [congruence|].
+      rewrite whole_length, sub_ix_length. subst jx0. apply sub_ix_length. }
+    rewrite (assign_fits rs (sub_ix kx' (si_idx si)) (si_shape si) _ w2 Hf).
+    eexists. exists rs. split; [reflexivity|]. split; [|right; exact Hrs'].
+    assert (Hz : hwrite (heap w2) rs (sub_ix kx' (si_idx si))
+                   (vdata (heap w2) (VWin rz (whole (length jx0)) shp1) (length (sub_ix kx' (si_idx si)))) = heap w2).
+    { cbn [vdata]. rewrite (rd_zeros (heap w2) rz (length jx0)) by (rewrite Hbz2; reflexivity).
+      unfold hwrite. rewrite Zb. cbn [bdata bcplx zero_buf]. rewrite wr_list_zeros.
+      fold (zero_buf (length ix0) cx). rewrite <- Zb. unfold getbuf.
+      clear - Zrs. revert Zrs. generalize (heap w2) as h. intros h. revert rs.
+      induction h as [|b h IHh]; intros [|rs] H; cbn in *; try lia; auto. f_equal. apply IHh. lia. }
+    rewrite Hz. replace (set_heap w2 (heap w2)) with w2 by (destruct w2; reflexivity).
+    constructor; auto.
+    + rewrite Zv. reflexivity.
+    + rewrite Zl. reflexivity.
+    + intros j Hj. rewrite Zo by exact Hj. reflexivity.
+Qed.
